@@ -206,8 +206,8 @@ func c14Pick(cls string, raw, N *big.Int) *big.Int {
 	return new(big.Int).Mod(raw, N)
 }
 
-func runC14(c c14Case) ev.Outcome {
-	out := ev.Outcome{Label: fmt.Sprintf("paillier key=%s op=%s cls=%s", c.Key, c.Op, c.Cls)}
+func runC14(c c14Case) (out ev.Outcome) {
+	out = ev.Outcome{Label: fmt.Sprintf("paillier key=%s op=%s cls=%s", c.Key, c.Op, c.Cls)}
 	out.Nontrivial = c.Cls != "rand" || c.Op != "encdec" || c.Key != "vendored"
 	fail := func(sig, f string, a ...interface{}) ev.Outcome {
 		out.Err, out.Sig = fmt.Errorf(f, a...), sig
@@ -248,6 +248,31 @@ func runC14(c c14Case) ev.Outcome {
 	isUnit := func(ct *big.Int) bool {
 		return ct.Sign() >= 0 && ct.Cmp(N2) < 0 && new(big.Int).GCD(nil, nil, ct, N).Cmp(one) == 0
 	}
+	// every argument handed to the API must come back unchanged (a result may not alias or overwrite an operand)
+	type snap struct {
+		name string
+		v    *big.Int
+		was  *big.Int
+	}
+	var watched []snap
+	watch := func(name string, v *big.Int) {
+		if v != nil {
+			watched = append(watched, snap{name, v, new(big.Int).Set(v)})
+		}
+	}
+	watch("m1", m1)
+	watch("m2", m2)
+	defer func() {
+		if out.Err != nil {
+			return
+		}
+		for _, w := range watched {
+			if w.v.Cmp(w.was) != 0 {
+				out.Err, out.Sig = fmt.Errorf("%s: operand %s was modified by the call(s) it was passed to (was %v, now %v)", c.Op, w.name, w.was, w.v), "operand-modified"
+				return
+			}
+		}
+	}()
 	switch c.Op {
 	case "encdec", "fresh", "unit":
 		c1, e := pk.Encrypt(rand.Reader, m1)
@@ -279,10 +304,16 @@ func runC14(c c14Case) ev.Outcome {
 	case "add":
 		c1, _ := pk.Encrypt(rand.Reader, m1)
 		c2, _ := pk.Encrypt(rand.Reader, m2)
+		watch("c1", c1)
+		watch("c2", c2)
 		s, e := pk.HomoAdd(c1, c2)
 		if e != nil {
 			return fail("homoadd-refused", "HomoAdd refused valid ciphertexts: %v", e)
 		}
+		if s == c1 || s == c2 {
+			return fail("operand-modified", "HomoAdd returned one of its operands as the result object")
+		}
+		watch("sum", s)
 		got, e := dec(s)
 		want := new(big.Int).Add(m1, m2)
 		want.Mod(want, N)
@@ -303,10 +334,14 @@ func runC14(c c14Case) ev.Outcome {
 		}
 	case "mult":
 		c1, _ := pk.Encrypt(rand.Reader, m1)
+		watch("c1", c1)
 		k := m2
 		p, e := pk.HomoMult(k, c1)
 		if e != nil {
 			return fail("homomult-refused", "HomoMult refused valid input: %v", e)
+		}
+		if p == c1 || p == k {
+			return fail("operand-modified", "HomoMult returned one of its operands as the result object")
 		}
 		want := new(big.Int).Mul(k, m1)
 		want.Mod(want, N)
